@@ -51,6 +51,206 @@ def canonicalise(tree: ast.AST) -> None:
                         i += 2
                         continue
                     i += 1
+    # for x in [y for y in S if C(y)]: BODY   ->   for x in S: if C(x): BODY
+    # (a filter written into the iterable; the element is the bare variable, one generator)
+    for node in ast.walk(tree):
+        if isinstance(node, ast.For) and isinstance(node.iter, (ast.ListComp, ast.GeneratorExp)) and len(node.iter.generators) == 1 and isinstance(node.target, ast.Name) and not node.orelse:
+            g_ = node.iter.generators[0]
+            if isinstance(g_.target, ast.Name) and isinstance(node.iter.elt, ast.Name) and node.iter.elt.id == g_.target.id and g_.ifs and not g_.is_async:
+                old_, new_ = g_.target.id, node.target.id
+                conds = []
+                for c_ in g_.ifs:
+                    c2 = copy.deepcopy(c_)
+                    for n_ in ast.walk(c2):
+                        if isinstance(n_, ast.Name) and n_.id == old_:
+                            n_.id = new_
+                    conds.append(c2)
+                test = conds[0] if len(conds) == 1 else ast.BoolOp(op=ast.And(), values=conds)
+                inner = ast.copy_location(ast.If(test=test, body=node.body, orelse=[]), node)
+                node.iter = g_.iter
+                node.body = [inner]
+                ast.fix_missing_locations(node)
+    # chain.from_iterable(E for x in IT)   ->   (v for x in IT for v in E)
+    for node in ast.walk(tree):
+        for fld, val in ast.iter_fields(node):
+            items = val if isinstance(val, list) else [val]
+            for j_, v_ in enumerate(items):
+                if isinstance(v_, ast.Call) and isinstance(v_.func, ast.Attribute) and v_.func.attr == "from_iterable" and unparse(v_.func.value) in ("chain", "itertools.chain") and len(v_.args) == 1 and not v_.keywords and isinstance(v_.args[0], (ast.GeneratorExp, ast.ListComp)):
+                    c_ = v_.args[0]
+                    used_ = {n_.id for n_ in ast.walk(c_) if isinstance(n_, ast.Name)}
+                    nm_ = "elem"
+                    while nm_ in used_:
+                        nm_ += "_"
+                    g2 = ast.comprehension(target=ast.Name(id=nm_, ctx=ast.Store()), iter=c_.elt, ifs=[], is_async=0)
+                    new_ = ast.copy_location(ast.GeneratorExp(elt=ast.Name(id=nm_, ctx=ast.Load()), generators=list(c_.generators) + [g2]), v_)
+                    ast.fix_missing_locations(new_)
+                    if isinstance(val, list):
+                        val[j_] = new_
+                    else:
+                        setattr(node, fld, new_)
+    # S.difference_update(<comprehension>) / S.update(<comprehension>) / L.extend(<comprehension>) as statements
+    #   ->   for ..: [if ..:] S.discard(e) / S.add(e) / L.append(e)        (the comprehension does not read S)
+    _bulk = {"difference_update": "discard", "update": "add", "extend": "append"}
+    for node in ast.walk(tree):
+        for fld in ("body", "orelse", "finalbody"):
+            seq = getattr(node, fld, None)
+            if not (isinstance(seq, list) and seq and isinstance(seq[0], ast.stmt)):
+                continue
+            for i, st in enumerate(seq):
+                if not (isinstance(st, ast.Expr) and isinstance(st.value, ast.Call) and isinstance(st.value.func, ast.Attribute) and st.value.func.attr in _bulk and len(st.value.args) == 1 and not st.value.keywords):
+                    continue
+                c_ = st.value.args[0]
+                recv = st.value.func.value
+                if not isinstance(c_, (ast.GeneratorExp, ast.ListComp, ast.SetComp)) or not isinstance(recv, (ast.Name, ast.Attribute)) or any(g_.is_async for g_ in c_.generators):
+                    continue
+                if isinstance(c_, ast.SetComp) and st.value.func.attr == "extend":
+                    continue
+                if st.value.func.attr == "update" and isinstance(c_.elt, (ast.Tuple, ast.List)) and len(c_.elt.elts) == 2:
+                    # pairs: the receiver may be a dict (D.update((k, v) for ..)): D[k] = v
+                    continue
+                if unparse(recv) in unparse(c_):
+                    continue
+                call_ = ast.Expr(value=ast.Call(func=ast.Attribute(value=recv, attr=_bulk[st.value.func.attr], ctx=ast.Load()), args=[c_.elt], keywords=[]))
+                body_ = [call_]
+                for g_ in reversed(c_.generators):
+                    if g_.ifs:
+                        body_ = [ast.If(test=g_.ifs[0] if len(g_.ifs) == 1 else ast.BoolOp(op=ast.And(), values=list(g_.ifs)), body=body_, orelse=[])]
+                    tg_ = copy.deepcopy(g_.target)
+                    for n_ in ast.walk(tg_):
+                        if hasattr(n_, "ctx"):
+                            n_.ctx = ast.Store()
+                    body_ = [ast.For(target=tg_, iter=g_.iter, body=body_, orelse=[])]
+                seq[i] = ast.copy_location(body_[0], st)
+                ast.fix_missing_locations(seq[i])
+    # if (x := E): ..   ->   x = E; if x: ..      (the walrus sits where it is evaluated first and always:
+    # the test itself, the operand of `not`, the left side of a comparison, the first operand of and / or)
+    def _first_walrus(t_):
+        while True:
+            if isinstance(t_, ast.NamedExpr):
+                return t_
+            if isinstance(t_, ast.UnaryOp):
+                t_ = t_.operand
+            elif isinstance(t_, ast.Compare):
+                t_ = t_.left
+            elif isinstance(t_, ast.BoolOp):
+                t_ = t_.values[0]
+            else:
+                return None
+
+    for node in ast.walk(tree):
+        for fld in ("body", "orelse", "finalbody"):
+            seq = getattr(node, fld, None)
+            if not (isinstance(seq, list) and seq and isinstance(seq[0], ast.stmt)):
+                continue
+            i = 0
+            while i < len(seq):
+                st = seq[i]
+                if isinstance(st, ast.If):
+                    w_ = _first_walrus(st.test)
+                    if w_ is not None and isinstance(w_.target, ast.Name):
+                        asg = ast.copy_location(ast.Assign(targets=[ast.Name(id=w_.target.id, ctx=ast.Store())], value=w_.value, lineno=st.lineno), st)
+                        ast.fix_missing_locations(asg)
+                        ref = ast.copy_location(ast.Name(id=w_.target.id, ctx=ast.Load()), w_)
+                        if st.test is w_:
+                            st.test = ref
+                        else:
+                            for p_ in ast.walk(st.test):
+                                for f2, v2 in ast.iter_fields(p_):
+                                    if v2 is w_:
+                                        setattr(p_, f2, ref)
+                                    elif isinstance(v2, list):
+                                        for j_, x_ in enumerate(v2):
+                                            if x_ is w_:
+                                                v2[j_] = ref
+                        seq.insert(i, asg)
+                        i += 2
+                        continue
+                i += 1
+    # a, b, c = m.groups()   ->   a = m.group(1); b = m.group(2); c = m.group(3)    (re.Match)
+    for node in ast.walk(tree):
+        for fld in ("body", "orelse", "finalbody"):
+            seq = getattr(node, fld, None)
+            if not (isinstance(seq, list) and seq and isinstance(seq[0], ast.stmt)):
+                continue
+            i = 0
+            while i < len(seq):
+                st = seq[i]
+                if isinstance(st, ast.Assign) and len(st.targets) == 1 and isinstance(st.targets[0], ast.Tuple) and all(isinstance(e_, ast.Name) for e_ in st.targets[0].elts) and isinstance(st.value, ast.Call) and isinstance(st.value.func, ast.Attribute) and st.value.func.attr == "groups" and not st.value.args and not st.value.keywords and isinstance(st.value.func.value, ast.Name):
+                    new_ = []
+                    for k_, e_ in enumerate(st.targets[0].elts):
+                        c_ = ast.Call(func=ast.Attribute(value=ast.Name(id=st.value.func.value.id, ctx=ast.Load()), attr="group", ctx=ast.Load()), args=[ast.Constant(value=k_ + 1)], keywords=[])
+                        a_ = ast.copy_location(ast.Assign(targets=[ast.Name(id=e_.id, ctx=ast.Store())], value=c_, lineno=st.lineno), st)
+                        ast.fix_missing_locations(a_)
+                        new_.append(a_)
+                    seq[i:i + 1] = new_
+                    i += len(new_)
+                    continue
+                i += 1
+    # D |= {"a": x, "b": y}  /  D.update({"a": x, "b": y})   ->   D["a"] = x; D["b"] = y
+    # (D a name, attribute or subscript chain; constant keys; the values do not read D)
+    def _simple_target(t_) -> bool:
+        if isinstance(t_, ast.Name):
+            return True
+        if isinstance(t_, ast.Attribute):
+            return _simple_target(t_.value)
+        if isinstance(t_, ast.Subscript):
+            return _simple_target(t_.value) and isinstance(t_.slice, (ast.Name, ast.Constant))
+        return False
+
+    for node in ast.walk(tree):
+        for fld in ("body", "orelse", "finalbody"):
+            seq = getattr(node, fld, None)
+            if not (isinstance(seq, list) and seq and isinstance(seq[0], ast.stmt)):
+                continue
+            i = 0
+            while i < len(seq):
+                st = seq[i]
+                tgt = disp = None
+                if isinstance(st, ast.AugAssign) and isinstance(st.op, ast.BitOr) and isinstance(st.value, ast.Dict):
+                    tgt, disp = st.target, st.value
+                elif isinstance(st, ast.Expr) and isinstance(st.value, ast.Call) and isinstance(st.value.func, ast.Attribute) and st.value.func.attr == "update" and len(st.value.args) == 1 and not st.value.keywords and isinstance(st.value.args[0], ast.Dict):
+                    tgt, disp = st.value.func.value, st.value.args[0]
+                comp = None
+                if isinstance(st, ast.AugAssign) and isinstance(st.op, ast.BitOr) and isinstance(st.value, ast.DictComp):
+                    tgt, comp = st.target, st.value
+                elif isinstance(st, ast.Expr) and isinstance(st.value, ast.Call) and isinstance(st.value.func, ast.Attribute) and st.value.func.attr == "update" and len(st.value.args) == 1 and not st.value.keywords and isinstance(st.value.args[0], ast.DictComp):
+                    tgt, comp = st.value.func.value, st.value.args[0]
+                if comp is not None and _simple_target(tgt) and len(comp.generators) == 1 and not comp.generators[0].is_async and ast.unparse(tgt) not in ast.unparse(comp):
+                    # D |= {K: V for T in IT if C}   ->   for T in IT: if C: D[K] = V
+                    g_ = comp.generators[0]
+                    t2 = copy.deepcopy(tgt)
+                    for n_ in ast.walk(t2):
+                        if hasattr(n_, "ctx"):
+                            n_.ctx = ast.Load()
+                    a_ = ast.Assign(targets=[ast.Subscript(value=t2, slice=comp.key, ctx=ast.Store())], value=comp.value, lineno=st.lineno)
+                    body_ = [a_]
+                    if g_.ifs:
+                        body_ = [ast.If(test=g_.ifs[0] if len(g_.ifs) == 1 else ast.BoolOp(op=ast.And(), values=list(g_.ifs)), body=[a_], orelse=[])]
+                    tg_ = copy.deepcopy(g_.target)
+                    for n_ in ast.walk(tg_):
+                        if hasattr(n_, "ctx"):
+                            n_.ctx = ast.Store()
+                    lp_ = ast.copy_location(ast.For(target=tg_, iter=g_.iter, body=body_, orelse=[]), st)
+                    ast.fix_missing_locations(lp_)
+                    seq[i] = lp_
+                    i += 1
+                    continue
+                if tgt is not None and disp is not None and disp.keys and _simple_target(tgt) and all(isinstance(k_, ast.Constant) for k_ in disp.keys):
+                    ttxt = ast.unparse(tgt)
+                    if not any(ttxt in ast.unparse(v_) for v_ in disp.values):
+                        new_ = []
+                        for k_, v_ in zip(disp.keys, disp.values):
+                            t2 = copy.deepcopy(tgt)
+                            for n_ in ast.walk(t2):
+                                if hasattr(n_, "ctx"):
+                                    n_.ctx = ast.Load()
+                            a_ = ast.copy_location(ast.Assign(targets=[ast.Subscript(value=t2, slice=k_, ctx=ast.Store())], value=v_, lineno=st.lineno), st)
+                            ast.fix_missing_locations(a_)
+                            new_.append(a_)
+                        seq[i:i + 1] = new_
+                        i += len(new_)
+                        continue
+                i += 1
     # T[k] = A if c else B   ->   if c: T[k] = A else: T[k] = B     (subscript stores only)
     for node in ast.walk(tree):
         for fld in ("body", "orelse", "finalbody"):
